@@ -120,6 +120,86 @@ theorem key_of_mask (k : Key) (b0 b1 b2 b3 : String) (h : keyMatches k [b0, b1, 
   · by_cases c0 : k0 = "X" <;> by_cases c1 : k1 = "X" <;> by_cases c2 : k2 = "X" <;> by_cases c3 : k3 = "X" <;>
       simp [maskOfKey, noneCount, wildcards, bit, c0, c1, c2, c3]
 
+/-! ### wildcard counting position by position (no assumption on the atom-type names) -/
+
+def cx (s : String) : Nat := if s = "X" then 1 else 0
+def ne1 (e : Option Nat) : Nat := if e = none then 1 else 0
+/-- the key character a mask entry produces -/
+def gk (e : Option Nat) (b : String) : String := match e with | none => "X" | some _ => b
+
+theorem w4 (x0 x1 x2 x3 : String) : wildcards [x0, x1, x2, x3] = cx x0 + cx x1 + cx x2 + cx x3 := by
+  simp only [wildcards, cx, List.count_cons, List.count_nil, beq_iff_eq]
+  omega
+
+theorem n4 (e0 e1 e2 e3 : Option Nat) : noneCount [e0, e1, e2, e3] = ne1 e0 + ne1 e1 + ne1 e2 + ne1 e3 := by
+  simp only [noneCount, ne1, List.count_cons, List.count_nil, beq_iff_eq]
+  omega
+
+theorem c4 (b0 b1 b2 b3 : String) : List.count "X" [b0, b1, b2, b3] = cx b0 + cx b1 + cx b2 + cx b3 := w4 b0 b1 b2 b3
+
+theorem wk_mask4 (e0 e1 e2 e3 : Option Nat) (b0 b1 b2 b3 : String)
+    (h0 : e0 = none ∨ e0 = some 0) (h1 : e1 = none ∨ e1 = some 1) (h2 : e2 = none ∨ e2 = some 2)
+    (h3 : e3 = none ∨ e3 = some 3) :
+    wildcardKey [b0, b1, b2, b3] [e0, e1, e2, e3] = [gk e0 b0, gk e1 b1, gk e2 b2, gk e3 b3] := by
+  rcases h0 with rfl | rfl <;> rcases h1 with rfl | rfl <;> rcases h2 with rfl | rfl <;> rcases h3 with rfl | rfl <;> rfl
+
+theorem isMask_entries (e0 e1 e2 e3 : Option Nat) (h : isMask [e0, e1, e2, e3] = true) :
+    (e0 = none ∨ e0 = some 0) ∧ (e1 = none ∨ e1 = some 1) ∧ (e2 = none ∨ e2 = some 2) ∧ (e3 = none ∨ e3 = some 3) := by
+  simp only [isMask, Bool.and_eq_true, Bool.or_eq_true, beq_iff_eq] at h
+  exact ⟨h.1.1.1, h.1.1.2, h.1.2, h.2⟩
+
+theorem cx_gk_le (e : Option Nat) (b : String) : cx (gk e b) ≤ ne1 e + cx b := by
+  cases e with
+  | none => simp [gk, cx, ne1]
+  | some i => simp [gk, ne1]
+
+/-- a masked key has at most the wildcards of the mask plus the atom types that are themselves called `X` -/
+theorem wk_wildcards_le (p : Pat) (hp : isMask p = true) (b0 b1 b2 b3 : String) :
+    wildcards (wildcardKey [b0, b1, b2, b3] p) ≤ noneCount p + List.count "X" [b0, b1, b2, b3] := by
+  match p, hp with
+  | [e0, e1, e2, e3], hp =>
+    obtain ⟨h0, h1, h2, h3⟩ := isMask_entries _ _ _ _ hp
+    rw [wk_mask4 _ _ _ _ _ _ _ _ h0 h1 h2 h3, w4, n4, c4]
+    have := cx_gk_le e0 b0; have := cx_gk_le e1 b1; have := cx_gk_le e2 b2; have := cx_gk_le e3 b3
+    omega
+
+/-- mask entry of the smallest mask producing key character `k` from atom type `b` -/
+def minBit (k b : String) (j : Nat) : Option Nat := if k = "X" ∧ b ≠ "X" then none else some j
+
+theorem minBit_spec (k b : String) (j : Nat) (h : k = "X" ∨ k = b) :
+    (minBit k b j = none ∨ minBit k b j = some j) ∧ gk (minBit k b j) b = k ∧ ne1 (minBit k b j) + cx b = cx k := by
+  unfold minBit
+  by_cases hk : k = "X"
+  · by_cases hb : b = "X"
+    · subst hk hb; simp [gk, ne1, cx]
+    · subst hk; simp [gk, ne1, cx, hb]
+  · have hkb : k = b := by rcases h with h | h; exact absurd h hk; exact h
+    subst hkb
+    simp [gk, ne1, hk]
+
+/-- a key that matches the atoms is the masked key of its SMALLEST mask, whose wildcard count is the key's
+wildcard count minus the atom types called `X` -/
+theorem key_of_minmask (k : Key) (b0 b1 b2 b3 : String) (h : keyMatches k [b0, b1, b2, b3] = true) :
+    ∃ m, m ∈ allMasks ∧ wildcardKey [b0, b1, b2, b3] m = k ∧
+      noneCount m + List.count "X" [b0, b1, b2, b3] = wildcards k := by
+  have hl : k.length = 4 := by
+    simp only [keyMatches, Bool.and_eq_true, beq_iff_eq] at h
+    simpa using h.1
+  obtain ⟨k0, k1, k2, k3, rfl⟩ := len4 k hl
+  simp only [keyMatches, List.length_cons, List.length_nil, List.zipWith_cons_cons, List.zipWith_nil_left,
+    List.all_cons, List.all_nil, Bool.and_eq_true, Bool.or_eq_true, beq_iff_eq, id] at h
+  obtain ⟨_, h0, h1, h2, h3, _⟩ := h
+  obtain ⟨a0, g0, s0⟩ := minBit_spec k0 b0 0 h0
+  obtain ⟨a1, g1, s1⟩ := minBit_spec k1 b1 1 h1
+  obtain ⟨a2, g2, s2⟩ := minBit_spec k2 b2 2 h2
+  obtain ⟨a3, g3, s3⟩ := minBit_spec k3 b3 3 h3
+  refine ⟨[minBit k0 b0 0, minBit k1 b1 1, minBit k2 b2 2, minBit k3 b3 3], ?_, ?_, ?_⟩
+  · apply mask_mem_allMasks
+    simp only [isMask, Bool.and_eq_true, Bool.or_eq_true, beq_iff_eq]
+    exact ⟨⟨⟨a0, a1⟩, a2⟩, a3⟩
+  · rw [wk_mask4 _ _ _ _ _ _ _ _ a0 a1 a2 a3, g0, g1, g2, g3]
+  · rw [n4, c4, w4]; omega
+
 /-! ### the search loop -/
 
 /-- the keys tried for one pattern, in the order the code tries them -/
@@ -164,6 +244,44 @@ theorem cands_wildcards (p : Pat) (a : Key) (hX : "X" ∉ a) : ∀ c ∈ cands a
   · exact wk_wildcards _ hXr p
   · rw [wildcards, List.count_reverse]; exact wk_wildcards _ hXr p
 
+theorem cands_wildcards_le (p : Pat) (hp : isMask p = true) (a : Key) (ha : a.length = 4) :
+    ∀ c ∈ cands a p, wildcards c ≤ noneCount p + List.count "X" a := by
+  obtain ⟨b0, b1, b2, b3, rfl⟩ := len4 a ha
+  have hr : [b0, b1, b2, b3].reverse = [b3, b2, b1, b0] := rfl
+  have hcr : List.count "X" [b3, b2, b1, b0] = List.count "X" [b0, b1, b2, b3] := by
+    rw [← hr, List.count_reverse]
+  intro c hc
+  simp only [cands, hr, List.mem_cons, List.not_mem_nil, or_false] at hc
+  rcases hc with rfl | rfl | rfl | rfl
+  · exact wk_wildcards_le p hp _ _ _ _
+  · rw [wildcards, List.count_reverse]; exact wk_wildcards_le p hp _ _ _ _
+  · rw [← hcr]; exact wk_wildcards_le p hp _ _ _ _
+  · rw [wildcards, List.count_reverse, ← hcr]; exact wk_wildcards_le p hp _ _ _ _
+
+/-- a matching key is among the keys tried for its smallest mask and for the reverse of that mask -/
+theorem match_in_cands_min (k a : Key) (ha : a.length = 4) (h : matchesEither k a = true) :
+    ∃ m ∈ allMasks, noneCount m + List.count "X" a = wildcards k ∧ k ∈ cands a m ∧ k ∈ cands a (revMask m) := by
+  obtain ⟨b0, b1, b2, b3, rfl⟩ := len4 a ha
+  have hr : [b0, b1, b2, b3].reverse = [b3, b2, b1, b0] := rfl
+  have hcr : List.count "X" [b3, b2, b1, b0] = List.count "X" [b0, b1, b2, b3] := by
+    rw [← hr, List.count_reverse]
+  simp only [matchesEither, hr, Bool.or_eq_true] at h
+  rcases h with h | h
+  · obtain ⟨m, hm, hk, hn⟩ := key_of_minmask k _ _ _ _ h
+    refine ⟨m, hm, hn, ?_, ?_⟩
+    · simp [cands, hk]
+    · have := wk_revMask _ hm b0 b1 b2 b3
+      simp only [cands, hr, List.mem_cons]
+      right; right; right; left
+      rw [← this, hk]
+  · obtain ⟨m, hm, hk, hn⟩ := key_of_minmask k _ _ _ _ h
+    refine ⟨m, hm, by rw [← hcr]; exact hn, ?_, ?_⟩
+    · simp [cands, hr, hk]
+    · have := wk_revMask _ hm b3 b2 b1 b0
+      simp only [cands, hr, List.mem_cons]
+      right; left
+      rw [← this, hk]
+
 /-- a matching key is among the keys tried for its own mask and for the reversed mask -/
 theorem match_in_cands (k a : Key) (ha : a.length = 4) (h : matchesEither k a = true) :
     ∃ m ∈ allMasks, noneCount m = wildcards k ∧ k ∈ cands a m ∧ k ∈ cands a (revMask m) := by
@@ -189,7 +307,7 @@ theorem match_in_cands (k a : Key) (ha : a.length = 4) (h : matchesEither k a = 
 /-- What `matchDihedral` returns, for ANY table with the three facts: a key of the type table that
 matches the atoms (in one of the two directions) such that no matching key has fewer wildcards. -/
 theorem matchDihedral_some (P : List Pat) (F : TableFacts P) (t : TypeTable) (a k : Key) (ha : a.length = 4)
-    (hX : "X" ∉ a) (h : matchDihedral P a t = some k) :
+    (h : matchDihedral P a t = some k) :
     k ∈ t.map (·.1) ∧ matchesEither k a = true ∧
       ∀ k' ∈ t.map (·.1), matchesEither k' a = true → wildcards k ≤ wildcards k' := by
   obtain ⟨l1, p, l2, hP, hp, hbefore⟩ := List.findSome?_eq_some_iff.mp h
@@ -197,14 +315,15 @@ theorem matchDihedral_some (P : List Pat) (F : TableFacts P) (t : TypeTable) (a 
   have hpk : hasKey t k = true := by simpa using List.find?_some hp
   have hkc : k ∈ cands a p := List.mem_of_find?_eq_some hp
   have hpP : p ∈ P := by rw [hP]; simp
-  have hpm : p ∈ allMasks := mask_mem_allMasks p (List.all_eq_true.mp F.masks p hpP)
+  have hpmask : isMask p = true := List.all_eq_true.mp F.masks p hpP
+  have hpm : p ∈ allMasks := mask_mem_allMasks p hpmask
   refine ⟨(hasKey_iff t k).mp hpk, cands_match p hpm a ha k hkc, ?_⟩
   intro k' hk' hmatch
-  obtain ⟨m, hm, hn, hc1, hc2⟩ := match_in_cands k' a ha hmatch
-  -- the mask of k' (or its reverse) is in the table
+  obtain ⟨m, hm, hn, hc1, hc2⟩ := match_in_cands_min k' a ha hmatch
+  -- the smallest mask of k' (or its reverse) is in the table
   have hcov := List.all_eq_true.mp F.covers m hm
   simp only [Bool.or_eq_true, List.contains_iff_mem] at hcov
-  have key : ∀ q ∈ P, k' ∈ cands a q → noneCount q = wildcards k' → wildcards k ≤ wildcards k' := by
+  have key : ∀ q ∈ P, k' ∈ cands a q → noneCount q + List.count "X" a = wildcards k' → wildcards k ≤ wildcards k' := by
     intro q hq hkq hnq
     -- q cannot come before p: the search would have stopped there
     have hnot : q ∉ l1 := by
@@ -221,8 +340,8 @@ theorem matchDihedral_some (P : List Pat) (F : TableFacts P) (t : TypeTable) (a 
       · rcases List.mem_cons.mp hq with rfl | hq
         · exact Nat.le_refl _
         · exact (List.pairwise_cons.mp hsorted.2.1).1 _ (List.mem_map_of_mem hq)
-    rw [cands_wildcards p a hX k hkc, ← hnq]
-    exact hle
+    have := cands_wildcards_le p hpmask a ha k hkc
+    omega
   rcases hcov with hq | hq
   · exact key m hq hc1 hn
   · exact key (revMask m) hq hc2 (by rw [revMask_noneCount m hm, hn])
@@ -261,22 +380,20 @@ theorem matchesEither_reverse (k a : Key) : matchesEither k a.reverse = matchesE
 
 /-- direction independence: listing the atoms the other way round changes neither whether a type is found
 nor how many wildcards the found key has; if the least-wildcarded matching key is unique, it is the same key. -/
-theorem matchDihedral_symm (P : List Pat) (F : TableFacts P) (t : TypeTable) (a : Key) (ha : a.length = 4)
-    (hX : "X" ∉ a) :
+theorem matchDihedral_symm (P : List Pat) (F : TableFacts P) (t : TypeTable) (a : Key) (ha : a.length = 4) :
     ((matchDihedral P a t).isSome = (matchDihedral P a.reverse t).isSome) ∧
     (∀ k1 k2, matchDihedral P a t = some k1 → matchDihedral P a.reverse t = some k2 →
       wildcards k1 = wildcards k2 ∧
       ((∀ k k' : Key, k ∈ t.map (·.1) → k' ∈ t.map (·.1) → matchesEither k a = true → matchesEither k' a = true →
           wildcards k = wildcards k' → k = k') → k1 = k2)) := by
   have har : a.reverse.length = 4 := by simpa using ha
-  have hXr : "X" ∉ a.reverse := by simpa using hX
   constructor
   · cases h1 : matchDihedral P a t with
     | none =>
       cases h2 : matchDihedral P a.reverse t with
       | none => rfl
       | some k2 =>
-        obtain ⟨hk, hm, _⟩ := matchDihedral_some P F t _ k2 har hXr h2
+        obtain ⟨hk, hm, _⟩ := matchDihedral_some P F t _ k2 har h2
         rw [matchesEither_reverse] at hm
         have := (matchDihedral_none_iff P F t a ha).mp h1 k2 hk
         rw [this] at hm; exact absurd hm Bool.false_ne_true
@@ -284,13 +401,13 @@ theorem matchDihedral_symm (P : List Pat) (F : TableFacts P) (t : TypeTable) (a 
       cases h2 : matchDihedral P a.reverse t with
       | some k2 => rfl
       | none =>
-        obtain ⟨hk, hm, _⟩ := matchDihedral_some P F t _ k1 ha hX h1
+        obtain ⟨hk, hm, _⟩ := matchDihedral_some P F t _ k1 ha h1
         have := (matchDihedral_none_iff P F t _ har).mp h2 k1 hk
         rw [matchesEither_reverse] at this
         rw [this] at hm; exact absurd hm Bool.false_ne_true
   · intro k1 k2 h1 h2
-    obtain ⟨hk1, hm1, hmin1⟩ := matchDihedral_some P F t _ k1 ha hX h1
-    obtain ⟨hk2, hm2, hmin2⟩ := matchDihedral_some P F t _ k2 har hXr h2
+    obtain ⟨hk1, hm1, hmin1⟩ := matchDihedral_some P F t _ k1 ha h1
+    obtain ⟨hk2, hm2, hmin2⟩ := matchDihedral_some P F t _ k2 har h2
     rw [matchesEither_reverse] at hm2
     have hw : wildcards k1 = wildcards k2 := by
       have := hmin1 k2 hk2 hm2
